@@ -74,7 +74,7 @@ fn walk(cx: &mut Ctx, v: &Value, r: &RVal, i: usize) -> Result<usize, String> {
 			// any way of consuming the mapped iterator must give the same offsets
 			if a.len() >= 2 && a.len() <= 40 {
 				let want: Vec<(usize, usize)> = idx.iter().enumerate().map(|(k, o)| (*o, &a[k] as *const Value as usize)).collect();
-				cx.checks += crate::monitor::check_iter(&format!("array at {}: iter_mapped", i), &|| a.iter_mapped(cx.cm, i).map(|m| (m.offset, m.value as *const Value as usize)), &want)?;
+				cx.checks += crate::monitor::check_iter_by(&format!("array at {}: iter_mapped", i), &|| a.iter_mapped(cx.cm, i), &|m: Mapped<&Value>| (m.offset, m.value as *const Value as usize), &want)?;
 			}
 			// the slice implementation too
 			let sl: &[Value] = a.as_slice();
@@ -114,7 +114,7 @@ fn walk(cx: &mut Ctx, v: &Value, r: &RVal, i: usize) -> Result<usize, String> {
 			}
 			if o.len() >= 2 && o.len() <= 40 {
 				let want: Vec<(usize, usize, usize)> = idx.clone();
-				cx.checks += crate::monitor::check_iter(&format!("object at {}: iter_mapped", i), &|| o.iter_mapped(cx.cm, i).map(|m| (m.offset, m.value.key.offset, m.value.value.offset)), &want)?;
+				cx.checks += crate::monitor::check_iter_by(&format!("object at {}: iter_mapped", i), &|| o.iter_mapped(cx.cm, i), &|m: json_syntax::object::MappedEntry| (m.offset, m.value.key.offset, m.value.value.offset), &want)?;
 			}
 			// key-based lookups, for every key present and an absent one
 			let mut keys: Vec<&str> = ro.iter().map(|e| e.0.as_str()).collect();
@@ -137,9 +137,9 @@ fn walk(cx: &mut Ctx, v: &Value, r: &RVal, i: usize) -> Result<usize, String> {
 				}
 				if pos.len() >= 2 && pos.len() <= 16 {
 					let want: Vec<usize> = pos.iter().map(|&p| idx[p].2).collect();
-					cx.checks += crate::monitor::check_iter(&format!("{}: get_mapped", what), &|| o.get_mapped(cx.cm, i, key).map(|m| m.offset), &want)?;
+					cx.checks += crate::monitor::check_iter_by(&format!("{}: get_mapped", what), &|| o.get_mapped(cx.cm, i, key), &|m: Mapped<&Value>| m.offset, &want)?;
 					let wante: Vec<usize> = pos.iter().map(|&p| idx[p].0).collect();
-					cx.checks += crate::monitor::check_iter(&format!("{}: get_mapped_entries", what), &|| o.get_mapped_entries(cx.cm, i, key).map(|m| m.offset), &wante)?;
+					cx.checks += crate::monitor::check_iter_by(&format!("{}: get_mapped_entries", what), &|| o.get_mapped_entries(cx.cm, i, key), &|m: json_syntax::object::MappedEntry| m.offset, &wante)?;
 				}
 				// get_mapped_with_index
 				let got: Vec<(usize, usize)> = o.get_mapped_with_index(cx.cm, i, key).map(|(p, m)| (p, m.offset)).collect();
